@@ -294,6 +294,11 @@ func (c *Cache) getSubscription(name string, subscribe bool) (*EventSubscription
 		})
 		if err != nil {
 			verifhook.Site("sub.toolong", "", name)
+			// Release the count added above, or else the event subscription
+			// will never be removed from the cache.
+			eventSub.mu.Lock()
+			eventSub.removeCount(1)
+			eventSub.mu.Unlock()
 			return nil, err
 		}
 
